@@ -10,6 +10,7 @@ from .. import core, sx
 from ..impl import wsgi
 from ..translate import pyflow
 
+HOP_LIMIT = 12
 MARK = 'zqXmarkerQz'          # put into every injected exception message
 HOOKPOINTS = ['on_start_resource', 'before_request_body', 'before_handler', 'before_finalize',
               'on_end_resource', 'on_end_request', 'before_error_response', 'after_error_response']
@@ -95,7 +96,11 @@ class Harness:
         if kind == 'HTTPRedirect':
             return cherrypy.HTTPRedirect('/elsewhere')
         if kind == 'InternalRedirect':
-            return cherrypy.InternalRedirect(sc['redirect_to'])
+            target = sc['redirect_to']
+            if target == 'cycleqs':
+                # a cycle whose hops carry different query strings: /?n=1 -> /other?m=2 -> /?n=1 ...
+                target = '/other?m=2' if cherrypy.serving.request.path_info == '/' else '/?n=1'
+            return cherrypy.InternalRedirect(target)
         if kind == 'Exception':
             # (a lone surrogate in the message: text that cannot be encoded when it is put on a page)
             return Injected('boom ' + MARK + ('\ud800' if sc.get('surrogate') else ''))
@@ -193,6 +198,8 @@ class Harness:
             if H.active:
                 H.requests.append(req)
                 H.log.append(['LoadServing', H.req_no()])
+                if len(H.requests) > HOP_LIMIT:
+                    raise RuntimeError('harness: more than %d requests in one session (unbounded redirects)' % HOP_LIMIT)
                 req.show_tracebacks = H.sc['showtb']
                 req.throw_errors = False
         patch(type(cherrypy.serving), 'load', lambda s, req, resp: load(req, resp))
@@ -355,7 +362,8 @@ class Harness:
         self.env_rules = []          # failures of framework-internal steps, observed (inputs of the model's environment)
         self.cur_hook_entry = ['none', 0, []]
         app = self.build_app(sc)
-        env, inp, _ = wsgi.build_environ(sc['method'], '/', [('Content-Length', '0')] if sc['method'] == 'POST' else [],
+        env, inp, _ = wsgi.build_environ(sc['method'], '/?n=1' if sc['redirect_to'] == 'cycleqs' else '/',
+                                         [('Content-Length', '0')] if sc['method'] == 'POST' else [],
                                          b'', 'HTTP/1.1')
         res = {'start_calls': [], 'chunks': [], 'escaped': None, 'nexts': 0, 'closes': 0, 'status_line': None,
                'headers': [], 'problems': []}
@@ -588,7 +596,7 @@ class FlowCheck(core.Check):
         sc['abandon'] = rng.choice([None, None, None, 0, 1]) if sc['stream'] else None
         sc['extra_close'] = rng.choice([0, 0, 1, 2])
         sc['http5'] = rng.random() < .3
-        sc['redirect_to'] = rng.choice(['/', '/other'])
+        sc['redirect_to'] = rng.choice(['/', '/other', 'cycleqs'])
         sc['error_page_fails'] = rng.random() < .08
         sc['surrogate'] = rng.random() < .1
         faults = []
